@@ -206,6 +206,52 @@ def w_converters(cfg, tier='quick'):
     return col.result()
 
 
+def w_stacks(cfg, tier='quick'):
+    """cfg = 'stacks n=<n> rows=<r>': the stack forms of the converters -- an r-row dense array and an r-row
+    sparse matrix (all r*2n bits symbolic, realised by the string construction): bsf_to_pauli gives one
+    string per row, each the letterwise image of ITS row (no state carried from row to row), dense and sparse
+    agree, and every string converts back to its row.  (Weights of multi-row stacks are not compared: the
+    property speaks of vectors and single sparse rows there, and on the pinned tree bsf_wt of a dense stack is
+    the total weight while bsf_wt of a sparse stack is the size of the union of the supports.)"""
+    _install()
+    import panqec.bpauli as bp
+    import panqec.bsparse as bsp
+    parts = dict(x.split('=') for x in cfg.split()[1:])
+    n, r = int(parts['n']), int(parts['rows'])
+    col = hz.Collector(cfg)
+    col.encoded(bp.bsf_to_pauli, bp.pauli_to_bsf, bp.bsf_wt)
+    V = [[z3.Bool(f'v_{k}_{i}') for i in range(2 * n)] for k in range(r)]
+    eng = Engine(name=cfg, max_paths=100000)
+    with eng:
+        def fn():
+            conc = np.array([[int(Bit(b)) for b in row] for row in V], dtype=np.uint8)   # realised
+            dense = bp.bsf_to_pauli(conc)
+            sparse = bp.bsf_to_pauli(bsp.from_array(conc))
+            back = [np.asarray(bp.pauli_string_to_bvector(s_)).astype(int).tolist() for s_ in dense]
+            return dict(conc=conc.tolist(), dense=list(dense), sparse=list(sparse), back=back)
+        paths = eng.explore(fn)
+    col.absorb(eng)
+
+    def wit(m):
+        return dict(stack=[[1 if z3.is_true(m.eval(b, model_completion=True)) else 0 for b in row] for row in V], n=n)
+    checks = {k: [] for k in ['each-row-is-the-image-of-its-own-row', 'dense-and-sparse-agree', 'roundtrip']}
+    for p in paths:
+        if p.exc is not None:
+            rr, m, dt = col.solve(p.pc)
+            col.record('C03/stacks/no-exception', rr, dt, True, wit(m) if m else None, f'{type(p.exc).__name__}: {p.exc}')
+            continue
+        v = p.value
+        expect = [''.join(_LETTER[(row[i], row[i + n])] for i in range(n)) for row in v['conc']]
+        bad = {'each-row-is-the-image-of-its-own-row': v['dense'] != expect or v['sparse'] != expect,
+               'dense-and-sparse-agree': v['dense'] != v['sparse'],
+               'roundtrip': v['back'] != v['conc']}
+        for k, b_ in bad.items():
+            checks[k].append(z3_and(p.pc + [z3.BoolVal(bool(b_))]))
+    for k, alts in checks.items():
+        col.prove(f'C03/stacks/{k}', [], z3_or(alts), wit, f'{len(paths)} realised stacks of {r} rows x {2 * n} bits')
+    return col.result()
+
+
 def w_converters_large(cfg, tier='quick'):
     """cfg = 'converters-large n=<n>': the integer / string conversions on LONG vectors (machine-word
     boundaries): symbolic bits at the first, last and middle positions, zero elsewhere."""
@@ -361,7 +407,7 @@ def w_linear(cfg, tier='quick'):
 
 def worker(cfg, tier='quick'):
     kind = cfg.split()[0]
-    return {'bs_prod': w_bs_prod, 'converters': w_converters, 'converters-large': w_converters_large, 'brank': w_brank,
+    return {'bs_prod': w_bs_prod, 'converters': w_converters, 'converters-large': w_converters_large, 'brank': w_brank, 'stacks': w_stacks,
             'dtype': w_dtype, 'linear': w_linear}[kind](cfg, tier)
 
 
@@ -404,6 +450,16 @@ def replay(path):
                 bad = (f(s, w['b']).reshape(-1) != (got.reshape(-1) + f(w['a2'], w['b']).reshape(-1)) % 2).any()
             elif 'no-exception' in oid:
                 bad = False
+        elif cfg.startswith('stacks'):
+            n = w['n']
+            conc = np.array(w['stack'], dtype=np.uint8)
+            expect = [''.join(_LETTER[(int(row[i]), int(row[i + n]))] for i in range(n)) for row in conc]
+            dense, sparse = list(bp.bsf_to_pauli(conc)), list(bp.bsf_to_pauli(bsp.from_array(conc)))
+            print('stack', conc.tolist(), 'dense', dense, 'sparse', sparse, 'expected', expect)
+            if 'roundtrip' in oid:
+                bad = [np.asarray(bp.pauli_string_to_bvector(s_)).astype(int).tolist() for s_ in dense] != conc.tolist()
+            else:
+                bad = dense != expect or sparse != expect
         elif cfg.startswith('converters-large'):
             n = w['n']
             v = np.zeros(2 * n, dtype=np.uint8)
@@ -460,6 +516,7 @@ def configs(tier):
                 out.append(f'bs_prod n={n} a={ra}:{ka} b={rb}:{kb}')
     for n in ([1, 2, 3] if tier == 'quick' else [1, 2, 3, 4, 5, 6]):
         out.append(f'converters n={n}')
+    out += ['stacks n=1 rows=2', 'stacks n=2 rows=2', 'stacks n=1 rows=3'] + ([] if tier == 'quick' else ['stacks n=2 rows=3', 'stacks n=3 rows=2'])
     out += [f'converters-large n={n}' for n in ([16, 32, 33, 64, 70] if tier == 'quick' else [16, 31, 32, 33, 40, 63, 64, 65, 100, 300])]
     out += ['brank r=2 c=3', 'brank r=3 c=2'] + ([] if tier == 'quick' else ['brank r=3 c=3', 'brank r=2 c=5'])
     out.append('dtype seed=0')
